@@ -200,20 +200,33 @@ def chunk_write(prog, rep, tag):
     P = "C07.inputs"
     b = prog.body("SubDeviceGroup::process_received_pdi_chunk")
     pr = Prov(b)
-    mins = [c for c in b.calls() if c.is_("Ord::min")]
-    pm = Prov(b, follow_all={"Ord::min"})
-    ok = len(mins) == 2 and all(has_root(pr.of_operand(c.args[1]), "field", "SubDeviceGroup", "read_pdi_len") or has_root(pr.of_operand(c.args[0]), "field", "SubDeviceGroup", "read_pdi_len") for c in mins)
-    rng = q.aggregates(b, "Range")
-    ok = ok and len(rng) >= 1
-    if ok:
-        s = rng[0][2]
-        st, en = pm.of_operand(q.agg_field(s, "start")), pm.of_operand(q.agg_field(s, "end"))
-        ok = has_root(st, "via", "Ord::min") and has_root(en, "via", "Ord::min") and has_root(st, "arg", 2) and has_root(en, "arg", 2) and has_root(en, "arg", 3) and has_root(en, "binop", "Add") and not has_root(st, "binop")
-        from ..wirelayout import Sym
+    # the range written to the image: both ends are min(_, read_pdi_len) - operands in either order, named locals or
+    # inline - the start clamps `sent`, the end clamps `sent + chunk`
+    def clamp_of(op):
+        """If op is min(x, y) with exactly one side being self.read_pdi_len: roots of the other side, else None."""
+        pl = op_place(op)
+        if pl is None or pl["p"]:
+            return None
+        for bi, si, kind, payload in b.defs().get(pl["l"], []):
+            if kind == "assign" and payload["rv"]["k"] == "use":
+                return clamp_of(payload["rv"]["a"][0])
+            if kind == "call" and (payload.decl_s or "").split("::")[-1] == "min" and len(payload.args) == 2:
+                a0, a1 = payload.args
+                f0 = q.is_field_read(b, a0, "SubDeviceGroup", "read_pdi_len")
+                f1 = q.is_field_read(b, a1, "SubDeviceGroup", "read_pdi_len")
+                if f0 != f1:
+                    return pr.of_operand(a1 if f0 else a0)
+        return None
 
-        sy = Sym(b)
-        e0, e1 = sy.operand(q.agg_field(s, "start")), sy.operand(q.agg_field(s, "end"))
-        ok = ok and e0[0] == "call" and e0[1] == "Ord::min" and e1[0] == "call" and e1[1] == "Ord::min" and "read_pdi_len" in str(e0[2][1]) and "read_pdi_len" in str(e1[2][1])
+    ok = False
+    idx = [c for c in b.calls() if c.is_("IndexMut::index_mut", "Index::index") and has_root(pr.of_operand(c.args[0]), "call", "MySyncUnsafeCell::get_mut")]
+    for bi, si, s in q.aggregates(b, "Range"):
+        if not any((op_place(c.args[1]) or {}).get("l") == s["place"]["l"] or has_root(pr.of_operand(c.args[1]), "agg", "Range") for c in idx):
+            continue
+        st, en = clamp_of(q.agg_field(s, "start")), clamp_of(q.agg_field(s, "end"))
+        if st is None or en is None:
+            continue
+        ok = has_root(st, "arg", 2) and not has_root(st, "binop") and has_root(en, "arg", 2) and has_root(en, "arg", 3) and has_root(en, "binop", "Add") and not has_root(en, "binop", "Sub")
     rep.ob(P, "range-clamped" + tag, ok, "the image range written is min(sent, read_pdi_len) .. min(sent + chunk, read_pdi_len): only inputs are overwritten", loc=b.span, how="dataflow")
     cp = [c for c in b.calls() if (c.decl_s or "").endswith("copy_from_slice")]
     ok2 = len(cp) == 1
@@ -222,7 +235,9 @@ def chunk_write(prog, rep, tag):
         src = Prov(b, transparent=Prov(b).transparent - {"slice::get"}).of_operand(cp[0].args[1])
         ok2 = has_root(dst, "call", "MySyncUnsafeCell::get_mut") and has_root(src, "call", "slice::get")
         g = [c for c in b.calls_to("slice::get")]
-        ok2 = ok2 and len(g) == 1 and has_root(pr.of_operand(g[0].args[1]), "call", "slice::len") and has_root(pr.of_operand(g[0].args[1]), "const", 0)
+        # data.get(0..len) or data.get(..len): a prefix of the response, as long as the image window
+        rr = pr.of_operand(g[0].args[1]) if len(g) == 1 else frozenset()
+        ok2 = ok2 and len(g) == 1 and has_root(rr, "call", "slice::len") and (has_root(rr, "const", 0) or has_root(rr, "agg", "RangeTo")) and not has_root(rr, "agg", "RangeFrom") and not has_root(rr, "binop")
     rep.ob(P, "copy-prefix" + tag, ok2, "the response's first inputs_chunk.len() bytes are copied (data.get(0..len)?), nothing else is written to the image", loc=b.span, how="dataflow")
     # nothing else in the crate writes through the lock from a response
     wkc = [a for a in q.field_accesses(b, "ReceivedPdu", "working_counter")]
